@@ -25,7 +25,9 @@
 //! Search oracles (real code only): (a) quality >= 2: JOB-ON == OWN (`PartialEq` of `UnionHasher`) for
 //! every prefix length — `favor:index-differs[:truncated]`; (b) untruncated, non-empty prefix: SHARED ==
 //! OWN — `favor:shared-differs`; (c) SHARED and OWN are of the same kind — `favor:kind-differs`; (d) no
-//! panic — `favor:panic`.  Kinds without a concrete model (H10, quality 10/11) run the oracles only.
+//! panic — `favor:panic`.  Kinds without a concrete model (H10, quality 10/11: class `h10`, ranges around its
+//! 128-byte look-ahead and truncated prefixes) run the oracles only — the real-code evidence for the
+//! `Store`-locality hypothesis of `favor_cpu_equiv_h10`.
 //!
 //! `sjob` lines (tie of BV/Model/StreamJob.lean, used by BV.Props.C02Part / C06Pure): a job whose encoder
 //! is fresh when it issues its call (job 0; any job at quality 0/1; any job with an empty prefix) is run
@@ -216,15 +218,16 @@ fn gen_data(rng: &mut Rng, n: usize) -> Vec<u8> {
 
 fn gen_case(rng: &mut Rng, class: u64, thorough: bool) -> Case {
     // class 0: short ranges around the look-ahead; 1: truncated prefixes (small windows); 2: general;
-    // 3: the big-table kinds (H54, H6, H9), sparse
+    // 3: the big-table kinds (H54, H6, H9), sparse; 4: H10 (quality 10/11, look-ahead 128; search oracles only)
     let (q, lgwin, hint, t, n, gen): (i32, i32, usize, usize, usize, &'static str) = match class {
         0 => { let t = rng.range(2, 16) as usize; (rng.range(2, 8) as i32, *rng.pick(&[10, 16, 18, 22]), 0, t, rng.range(0, 14 * t as u64) as usize, "short") }
         1 => { let t = rng.range(2, 6) as usize; (rng.range(2, 8) as i32, *rng.pick(&[10, 10, 11, 12]), 0, t, rng.range(1100, if thorough { 20000 } else { 9000 }) as usize, "truncated") }
         2 => { let t = rng.range(2, 8) as usize; (rng.range(0, 8) as i32, *rng.pick(&[10, 13, 16, 17, 18, 20, 22, 24]), *rng.pick(&[0, 0, 1 << 20]), t, rng.range(20, if thorough { 24000 } else { 6000 }) as usize, "general") }
+        4 => { let t = rng.range(2, 6) as usize; (rng.range(10, 11) as i32, *rng.pick(&[10, 12, 16, 18]), 0, t, if rng.chance(1, 2) { rng.range(0, 200 * t as u64) } else { rng.range(1100, 6000) } as usize, "h10") }
         _ => { let t = rng.range(2, 4) as usize; let (q, hint) = *rng.pick(&[(4, 1usize << 20), (6, (1usize << 22) + 1), (8, (1usize << 22) + 1), (9, 0), (9, 0)]); (q, *rng.pick(&[19, 22]), hint, t, rng.range(40, 4000) as usize, "big-table") }
     };
     // quality >= 5 with lgwin <= 16 falls back to an H6 with 2^23 cells (8M-cell tables on the Lean side): keep 1 in 8
-    let q = if class != 3 && q >= 5 && lgwin <= 16 && !rng.chance(1, 8) { rng.range(2, 4) as i32 } else { q };
+    let q = if class != 3 && class != 4 && q >= 5 && lgwin <= 16 && !rng.chance(1, 8) { rng.range(2, 4) as i32 } else { q };
     let j = rng.range(1, (t - 1) as u64) as usize;
     Case { q, lgwin, hint, t, j, data: gen_data(rng, n), gen }
 }
@@ -313,7 +316,7 @@ pub fn run_cmd(args: &Args) {
         let mut lines: Vec<(String, String)> = vec![];
         for k in 0..per_task {
             // one big-table case per task in the quick tier (8M-cell tables on the Lean side)
-            let class = if k == 0 { 3 } else { [0u64, 1, 2, 2, 1, 0, 2, if thorough { 3 } else { 2 }][k % 8] };
+            let class = if k == 0 { 3 } else if k == 1 || k == 2 { 4 } else { [0u64, 1, 2, 2, 1, 0, 2, if thorough { 3 } else { 2 }][k % 8] };
             let c = gen_case(&mut rng, class, thorough);
             rep.evaluations += 1;
             rep.count(&format!("class.{}", c.gen));
